@@ -78,7 +78,11 @@ AfterViol(e) ==
        ELSE (IF e.after.out = "ok" THEN {}
              ELSE {V(IF Has(e, "drop_first_after_ms") THEN "C18" ELSE "C06", "SessionUnusableAfterwards", e, e.after.out)})
 
-LineViol(e) == EstViol(e) \cup ResultViol(e) \cup AfterViol(e)
+(* closing the session after the peer has gone: an operation like any other *)
+CloseOpViol(e) ==
+  IF ~Has(e, "closeop") \/ e.established # "yes" THEN {}
+  ELSE IF Hung(e.closeop.out) THEN {V("C07", "CloseOfTheSessionHangsAfterPeerClosed", e, "close=" \o e.close)} ELSE {}
+LineViol(e) == EstViol(e) \cup ResultViol(e) \cup AfterViol(e) \cup CloseOpViol(e)
 
 Nontrivial(e) == e.cuts # <<>> \/ e.close # "none" \/ e.hello_close # "none" \/ e.hello_cuts # <<>>
 TInit == l = 1 /\ viol = {} /\ stats = [lines |-> 0, nontrivial |-> 0, closes |-> 0]
